@@ -175,7 +175,13 @@ func execC20Type(c *child.Ctx, t int, r *ref.SplitMix64, extraBodies int) {
 					c.Violate("timestamp", fmt.Sprintf("type %d is not an MSM4/MSM7 but carries Timestamp=%d SentAt=%q StartOfWeek=%q", t, m.Timestamp, m.SentAt, m.StartOfWeek), cj)
 				}
 				errBefore := m.ErrorMessage
+				// the display path decides the same way as a direct Analyse call
+				m2cp := *m
+				viaDisplay := handler.PrepareForDisplay(&m2cp)
 				handler.Analyse(m)
+				if (viaDisplay == nil) != (m.Readable == nil) || fmt.Sprintf("%T", viaDisplay) != fmt.Sprintf("%T", m.Readable) {
+					c.Violate("dispatch", fmt.Sprintf("type %d with %s body: PrepareForDisplay produced %T but Analyse produced %T (error before %q)", t, body, viaDisplay, m.Readable, errBefore), cj)
+				}
 				attempted := false
 				switch m.Readable.(type) {
 				case *msm4msg.Message, *msm7msg.Message, *type1005.Message, *type1006.Message:
